@@ -8,7 +8,7 @@ All classes are module-level so that containers pickle (C12).
 """
 
 EVENTS = []
-ARM = {"write": None, "call": None, "persistent": False}
+ARM = {"write": None, "call": None, "persistent": False, "exc": None}
 STATS = {"writes": 0, "calls": 0}
 
 
@@ -16,11 +16,28 @@ class InjectedFault(Exception):
     pass
 
 
+def _injected(base):
+    return type("Injected" + base.__name__, (base,), {"__module__": __name__})
+
+
+# the same fault as an instance of common built-in exception classes (a failure of user code can be of any class;
+# StopIteration in particular is swallowed by iterator-driven loops)
+INJECTED_CLASSES = [InjectedFault] + [_injected(b) for b in (StopIteration, KeyError, AttributeError, OverflowError, TypeError,
+                                                              ValueError, IndexError, RuntimeError, LookupError, ArithmeticError)]
+for _c in INJECTED_CLASSES[1:]:
+    globals()[_c.__name__] = _c
+
+
+def is_injected(exc):
+    return isinstance(exc, tuple(INJECTED_CLASSES))
+
+
 def reset():
     del EVENTS[:]
     ARM["write"] = None
     ARM["call"] = None
     ARM["persistent"] = False
+    ARM["exc"] = None
 
 
 def _tick(kind, what):
@@ -30,7 +47,7 @@ def _tick(kind, what):
             if not ARM["persistent"]:
                 ARM[kind] = None
             EVENTS.append(("fault", kind, what))
-            raise InjectedFault("%s fault at %r" % (kind, what))
+            raise (ARM.get("exc") or InjectedFault)("%s fault at %r" % (kind, what))
         ARM[kind] = k - 1
 
 
